@@ -24,6 +24,28 @@ CHECKS = {
              "pairs in quick, 400 pairs x 6 configurations in thorough).",
         design_ref="3.1", technique="generated compile-fail witness programs judged by clang++/g++ -fsyntax-only",
         note=TRUST_W, engine="W"),
+    "C03": dict(
+        category="proof",
+        text="Per instance (integral rep T, reduced factor N/D; grid of library unit ratios, powers of 2/10, "
+             "values straddling the limits of T and of its promoted type, large primes, seeded coprime pairs) the "
+             "IR of coerce_in / coerce_as and of is_conversion_lossy is analysed on an exact partition of T's whole "
+             "value range into cells (interval x congruence class) on which every guard is decided and every value "
+             "is a monotone quasi-affine form of x.  Obligation per cell where the checker clears: every arithmetic "
+             "instruction of the conversion (dead ones included) stays in range - no signed overflow, no unsigned "
+             "wrap, value-preserving narrowing - and the result is exactly x*N/D.  All 2^8..2^64 inputs of each "
+             "instance are covered; instances are enumerated, not all (T,N,D).",
+        design_ref="3.3", technique="abstract interpretation of LLVM IR (interval x congruence cells, affine forms) against a closed-form model",
+        note=TRUST_I, engine="I"),
+    "C04": dict(
+        category="proof",
+        text="Same instances and cell partition as C03.  Per cell: the set flagged by will_conversion_truncate equals "
+             "{x : D does not divide x*N}; the set flagged by will_conversion_overflow equals the closed-form set "
+             "{x*N outside the promoted type or x*N/D outside T} computed with exact integers; is_conversion_lossy is "
+             "the disjunction; and every flagged exact input really leaves a range in the conversion IR (so no "
+             "exact, computable conversion is reported lossy).  This is the all-values statement per instance, by "
+             "monotone end-point reasoning rather than by a solver.",
+        design_ref="3.4", technique="exact cell extraction of checker predicates from LLVM IR compared with closed-form sets",
+        note=TRUST_I, engine="I"),
 }
 
 NOT_YET = {
